@@ -256,7 +256,7 @@ def c06(pid, tier, t0):
     nv.conformance(res)
     res.stats["distinct_nontrivial"] = res.stats.get("transitions", 0)
     return nv.finish(pid, tier, t0, res, {
-        "rule": "every (command, address) pair - commands a/i/c with 0,1,2 text lines, d, d a, d A, y, y b, pu, pu a, pu b, r of 2/1/0-line and missing files, p, =, k a, k c, rs, @ b (register b holding the command line d), the filter !tr o 0 - x address forms "
+        "rule": "every (command, address) pair - commands a/i/c with 0,1,2 text lines, d, d a, d A, y, y b, pu, pu a, pu b, r of 2/1/0-line and missing files, p, =, k a, k c, rs, @ b (register b holding the command line d), the filters !tr o 0 and !true - x address forms "
                 "{none, %, 0, 1, 2, 9, ., $, 'a, 'b(unset), /ax/, ?ax?, /zz/, //, ??, /ax/+1, .+1, $-1, +, -, +2, 'a-1, 1,2  2,3  1,$  .,$  .,+1  1;+1  2;+1  /ax/;+1  3,1  'a,$  1,9  2;/ax/} from every "
                 "initial configuration (buffers of 0,1,3,4 lines x every current line x mark a unset or on every line, registers preloaded); plus all sequences up to depth over a reduced alphabet; "
                 "every transition is a distinct (configuration, history) case",
@@ -272,8 +272,8 @@ def c15(pid, tier, t0):
     res = nv.run_shards(exe, ["tier=" + tier, "deadline=%d" % dl(tier)], nv.NCPU, dl(tier) + 120)
     nv.conformance(res)
     return nv.finish(pid, tier, t0, res, {
-        "rule": "patterns {a, ^$, b$, .} x {g, g!, v} x ranges {none, %, 2,3, 2,$} x 30 command lists (d, -1d, +1d, .,+1d, s/a/b/, s/a/ab/g, pu a, 0pu a, i|x|., a|x|., c|x|., -1a|a|., d|pu, s/a/c/|-1d, "
-                "nested g/b/d, nested g/a/s/a/b/, y b|pu b, ka|'ad, two-line blocks for c/i/a/.,+1c, the always-rejected 'zd and +9d, and +1s/b/a/, +1s/a/b/, -1s/b/a/ which change whether a neighbouring line matches, -2,-1d / -2,-1s/$/x/ / -1,.d which move the lines still to be visited above the scan position) x every buffer of 1..buffer_lines lines over the contents {a, b, ab, empty}; distinct_nontrivial = globals that change the buffer",
+        "rule": "patterns {a, ^$, b$, .} x {g, g!, v} x ranges {none, %, 2,3, 2,$} x 31 command lists (d, -1d, +1d, .,+1d, s/a/b/, s/a/ab/g, pu a, 0pu a, i|x|., a|x|., c|x|., -1a|a|., d|pu, s/a/c/|-1d, "
+                "nested g/b/d, nested g/a/s/a/b/, y b|pu b, ka|'ad, two-line blocks for c/i/a/.,+1c, the always-rejected 'zd and +9d, and +1s/b/a/, +1s/a/b/, -1s/b/a/ which change whether a neighbouring line matches, -2,-1d / -2,-1s/$/x/ / -1,.d which move the lines still to be visited above the scan position, and the nested ranged global .,+1g/./s/$/!/) x every buffer of 1..buffer_lines lines over the contents {a, b, ab, empty}; distinct_nontrivial = globals that change the buffer",
         "depth_bound": res.stats.get("buffer_lines"),
         "explanation": "real :g through ex_command on an initialised editor (AddressSanitizer build); reference keeps line identities: the lines of the range that still exist are visited once in order, "
                        "inserted lines never; the number of executions is observed through the text blocks the command list consumes; one :u must restore the pre-global text; in a second pass two further globals (2,3v/zzz/s/$/!/ and %v/zzz/s/$/!/) run on the state the first one left behind and must visit exactly their own lines",
